@@ -112,13 +112,18 @@ func (c *Config) getCacheTTL(resp *TokenInfo) time.Duration {
 	// we cache by default using the settings in the token endpoint response (if available)
 	// or if ttl has been configured. Latter overwrites the settings in the token endpoint response
 	// if it is shorter than the ttl in the token endpoint response
-	tokenEndpointResponseTTL := x.IfThenElseExec(!resp.Expiry.IsZero(),
-		func() time.Duration {
-			expiresIn := time.Until(resp.Expiry) - timeLeeway*time.Second
+	var tokenEndpointResponseTTL time.Duration
 
-			return x.IfThenElse(expiresIn > 0, expiresIn, 0)
-		},
-		func() time.Duration { return 0 })
+	if !resp.Expiry.IsZero() {
+		expiresIn := time.Until(resp.Expiry) - timeLeeway*time.Second
+		if expiresIn <= 0 {
+			// the token is about to expire. Not to be confused with the absence of the expiry
+			// information, in which case the configured ttl is used
+			return 0
+		}
+
+		tokenEndpointResponseTTL = expiresIn
+	}
 
 	configuredTTL := x.IfThenElseExec(c.TTL != nil,
 		func() time.Duration { return *c.TTL },
